@@ -138,6 +138,16 @@ func (ex *Exec) step(fr *frame, st *State, ins ssa.Instruction) []*State {
 	case *ssa.Call:
 		d := ex.prepareCall(fr, st, &x.Call)
 		results := ex.callValue(fr, st, d.fn, d.method, d.args, x)
+		if len(results) > 1 && fr.depth == 0 && ex.PruneCalls {
+			// several shapes came back to the harness: drop the ones the solver refutes before they multiply
+			kept := results[:0]
+			for _, r := range results {
+				if ex.solverFeasible(r.G, true) {
+					kept = append(kept, r)
+				}
+			}
+			results = kept
+		}
 		var out []*State
 		for i, r := range results {
 			var ns *State
@@ -707,7 +717,7 @@ func (ex *Exec) indexAddr(fr *frame, st *State, x *ssa.IndexAddr) []*State {
 	var out []*State
 	for i := 0; i < n; i++ {
 		c := term.Eq(idx, term.Const(idx.W(), uint64(i)))
-		if !ex.feasible(term.And(st.G, c), true) {
+		if !ex.feasibleWith(st.G, c, false) {
 			continue
 		}
 		s := st.fork(c)
